@@ -570,7 +570,7 @@ type c17E2ECase struct {
 	Workers map[string]int `json:"workers"` // values per source are derived: env = w, file = w+1, cli = w+2
 	// Bools: for the <protocol>-enabled switches, the value each source gives (bit 0 env, 1 file, 2 cli; set = true)
 	Bools map[string]int `json:"bools,omitempty"`
-	// TopPort: the port setting whose winning source gives the highest port number (65535 - shard)
+	// TopPort: the port setting whose winning source gives the highest port number, 65535
 	TopPort string `json:"top_port,omitempty"`
 }
 
@@ -634,20 +634,21 @@ func runC17E2E(c *c17E2ECase) (v verdict, sig string, err error) {
 		}
 		vals := [3]int{s.val(blocks[0]), s.val(blocks[1]), s.val(blocks[2])}
 		if s.key == c.TopPort && c.Masks[s.key] != 0 {
-			// the source that wins gives the top of the port range (65535 for shard 0, one less per further shard,
-			// so that parallel shards never ask for the same port)
-			shard, _ := strconv.Atoi(os.Getenv("VERIF_SHARD_INDEX"))
+			// the source that wins gives the very top of the port range, 65535; one case at a time on this machine
+			// (an abstract unix socket serves as the lock; whoever does not get it keeps its ordinary port)
 			win := 0
 			for bit := 0; bit < 3; bit++ {
 				if c.Masks[s.key]&(1<<uint(bit)) != 0 {
 					win = bit
 				}
 			}
-			top := 65535 - shard%16
-			if pc, err := net.ListenPacket("udp", fmt.Sprintf(":%d", top)); err == nil {
-				pc.Close()
-				vals[win] = top
-				v.label(true, "port-at-top-of-range")
+			if lock, err := net.Listen("unix", "@verif-top-port-65535"); err == nil {
+				defer lock.Close()
+				if pc, err := net.ListenPacket("udp", ":65535"); err == nil {
+					pc.Close()
+					vals[win] = 65535
+					v.label(true, "port-at-top-of-range")
+				}
 			}
 		}
 		apply(s.key, s.flag, vals, func(x int) {
